@@ -1,5 +1,5 @@
 SPECIFICATION Spec
-CONSTANT MaxLen = 5
+CONSTANT MaxLen = 4
 INVARIANT Laws
 INVARIANT Emit
 CHECK_DEADLOCK FALSE
